@@ -71,7 +71,8 @@ struct HPca : Harness {
     // C02 only: the documented criterion is relative, so the unit of the data must not matter.  Options 0 and -1 keep the unit; very
     // small and very large units are drawn for them (the other options divide by a column statistic and are scale free)
     if (prop == "C02" && p.geti("scaling") <= 0 && wr.chance(0.5)) p.setd("scale_exp", wr.chance(0.7) ? wr.uniform(-6.0, -2.0) : wr.uniform(3.0, 6.0));
-    p.seti("axis_aligned", wr.chance(0.2) ? 1 : 0);  // overall magnitude of the singular values
+    p.seti("axis_aligned", wr.chance(0.2) ? 1 : 0);
+    if (prop == "C02" && wr.chance(0.12)) p.seti("far_offsets", 1);  // overall magnitude of the singular values
     p.setu("data.seed", wr.next() >> 4);
     return p;
   }
@@ -94,7 +95,10 @@ struct HPca : Harness {
       for (int k = 0; k < r; k++) { s[k] = cur; cur *= rho * dr.uniform(0.6, 1.0); }
       for (int i = 0; i < n; i++) for (int j = 0; j < pp; j++) { LD v = 0; for (int k = 0; k < r; k++) v += U[i][k] * s[k] * V[j][k]; X[i][j] = (double)v; }
       double se = p.getd("scale_exp", 1.0), ounit = (scaling == -1 && (se < -2 || se > 3)) ? pow(10.0, se - 1) : 1.0;  // without centring the offsets are data: keep them in the unit of the data
-      for (int j = 0; j < pp; j++) { double off = dr.uniform(-20, 20) * ounit; if (scaling == 5 && fabs(off) < 1) off = off < 0 ? -1.5 : 1.5; for (int i = 0; i < n; i++) X[i][j] += off; }
+      // "far" columns (plan key far_offsets): location up to 1e8 times the spread (time stamps, absolute temperatures, masses): centring
+      // and scaling must cope; the oracle's tolerance carries the corresponding rounding term
+      double far = p.geti("far_offsets", 0) && scaling >= 0 ? pow(10.0, dr.uniform(3.0, 8.0)) * (double)s[0] / sqrt((double)n) : 0.0;
+      for (int j = 0; j < pp; j++) { double off = dr.uniform(-20, 20) * ounit; if (scaling == 5 && fabs(off) < 1) off = off < 0 ? -1.5 : 1.5; if (far > 0 && dr.chance(0.5)) off = (dr.chance(0.5) ? 1 : -1) * far * dr.uniform(0.3, 1.0); for (int i = 0; i < n; i++) X[i][j] += off; }
       return X;
     }
     for (int j = 0; j < pp; j++) {
@@ -242,7 +246,10 @@ struct HPca : Harness {
       LMat G = lgram(E); LVec ev; LMat V; ljacobi(G, ev, V);
       LD tr = 0; for (LD v : ev) tr += v;
       if (tr <= 0) { o.counters["skipped.no_variance"]++; return o; }
-      NipalsTol tol = nipals_tolerances(ev, npc, n, DOC_PCA_CRITERION, 10.0, pp);   // see oracle/nipals_tol.hpp for the derivation
+      // conditioning of the centring: a column at location m with spread sd keeps only eps*|m|/sd relative accuracy in E
+      double kappa = 0; if (scaling >= 0) for (int j = 0; j < pp; j++) { double m = 0, v = 0; for (int i = 0; i < n; i++) m += X[i][j]; m /= n; for (int i = 0; i < n; i++) v += (X[i][j] - m) * (X[i][j] - m); double sd = sqrt(v / std::max(1, n - 1)); if (sd > 0) kappa = fmax(kappa, fabs(m) / sd); }
+      if (p.geti("far_offsets", 0)) o.counters["probe.far_offsets"]++;
+      NipalsTol tol = nipals_tolerances(ev, npc, n, DOC_PCA_CRITERION, 10.0, pp, 2.220446049250313e-16 * kappa);   // see oracle/nipals_tol.hpp for the derivation
       int kmax = tol.kmax;
       if (kmax < npc) o.counters["skipped.components_undecidable"] += npc - kmax;
       if (kmax == 0) { o.counters["skipped.spectrum_not_separated"]++; return o; }
